@@ -21,9 +21,10 @@ type seqLog struct {
 
 type seqWorld struct {
 	p     *fpgo.PublisherDef[int]
-	subs  [4]*fpgo.Subscription[int] // live handle of subscriber i (nil: not subscribed)
-	armed [4]bool
-	beh   [3]string
+	subs  [9]*fpgo.Subscription[int] // live handle of subscriber i (nil: not subscribed)
+	armed [9]bool
+	beh   []string
+	n     int // number of scripted subscribers (the extra one, index n, is added by sub-new)
 	log   []logEv
 }
 
@@ -59,7 +60,7 @@ func (w *seqWorld) publish(v int) {
 
 func (w *seqWorld) onNext(i, v int) {
 	w.log = append(w.log, logEv{"deliver", i, v})
-	if i >= 3 || !w.armed[i] {
+	if i >= w.n || !w.armed[i] {
 		return
 	}
 	w.armed[i] = false
@@ -67,11 +68,11 @@ func (w *seqWorld) onNext(i, v int) {
 	case "unsub-self":
 		w.unsubscribe(i)
 	case "unsub-next":
-		w.unsubscribe((i + 1) % 3)
+		w.unsubscribe((i + 1) % w.n)
 	case "unsub-prev":
-		w.unsubscribe((i + 2) % 3)
+		w.unsubscribe((i + w.n - 1) % w.n)
 	case "sub-new":
-		w.subscribe(3)
+		w.subscribe(w.n)
 	case "publish-nested":
 		w.publish(v + 100)
 	}
@@ -175,7 +176,7 @@ func checkLog(log []logEv) string {
 
 func keysOf(m map[int]bool) []int {
 	var k []int
-	for i := 0; i < 8; i++ {
+	for i := 0; i < 10; i++ {
 		if m[i] {
 			k = append(k, i)
 		}
@@ -207,7 +208,7 @@ func reentrant(r *lib.Report, tier string) (int64, int64, []interface{}) {
 	var hist []int
 	var rec func(d int)
 	run := func(beh [3]string, h []int) (string, string) {
-		w := &seqWorld{p: fpgo.PublisherNewGenerics[int](), beh: beh, armed: [4]bool{true, true, true, false}}
+		w := &seqWorld{p: fpgo.PublisherNewGenerics[int](), beh: beh[:], n: 3, armed: [9]bool{true, true, true}}
 		v := 0
 		msg := lib.Catch(func() {
 			for _, o := range h {
@@ -274,6 +275,51 @@ func reentrant(r *lib.Report, tier string) (int64, int64, []interface{}) {
 		}
 	}
 	rec(0)
+	// wider subscriber lists (4-6 subscribers, all registered, then two publishes): every vector of
+	// removal behaviours, so that several removals fall into one Publish at every position
+	wide := []string{"none", "unsub-self", "unsub-next", "unsub-prev"}
+	for n := 4; n <= 6; n++ {
+		if n == 6 && tier != "thorough" {
+			break
+		}
+		total := 1
+		for i := 0; i < n; i++ {
+			total *= len(wide)
+		}
+		for code := 0; code < total; code++ {
+			beh := make([]string, n)
+			c := code
+			for i := 0; i < n; i++ {
+				beh[i] = wide[c%len(wide)]
+				c /= len(wide)
+			}
+			w := &seqWorld{p: fpgo.PublisherNewGenerics[int](), beh: beh, n: n}
+			trans++
+			msg := lib.Catch(func() {
+				for i := 0; i < n; i++ {
+					w.armed[i] = true
+					w.subscribe(i)
+				}
+				w.publish(1)
+				w.publish(2)
+			})
+			clause := "panic"
+			if msg == "" {
+				msg = checkLog(w.log)
+				clause = clauseOf(msg)
+			}
+			if msg != "" {
+				r.Violation("C10|reentrant|"+clause, fmt.Sprintf("%d subscribers with callbacks %v, two publishes: %s", n, beh, msg),
+					map[string]interface{}{"callback_behaviours": beh, "history": "subscribe all, publish, publish", "failure": msg})
+			} else {
+				k := fmt.Sprint(w.log)
+				if !seen[k] {
+					seen[k] = true
+					states++
+				}
+			}
+		}
+	}
 	// Map chains: fn(v) reaches every subscriber of the derived publisher exactly once per origin value
 	for hops := 1; hops <= 3; hops++ {
 		for nsub := 1; nsub <= 2; nsub++ {
